@@ -122,6 +122,14 @@ def core_value(t: int, v: str) -> str:
     return 'ok'
 
 
+def digit_limit(n: int, t: int) -> str:
+    """the int and float constructors on decimal texts around the interpreter's int <-> str limit"""
+    for i in range(4296, 4306):
+        if n == i:
+            return core_value(t, '1' * i)
+    return 'ok'
+
+
 def _place(ctx, x):
     """Put node x into one of the placement contexts; returns the document root."""
     s = lambda v: ScalarNode(T + 'str', v)
@@ -395,6 +403,8 @@ def jobs(tier):
     for c in range(12):
         js.append(Job('context/%d' % c, context, [lambda tag, kind, ctx, _c=c: ctx == _c and len(tag) <= L and 0 <= kind <= 2],
                       budget=100, bounds='placement %d, len(tag)<=%d, 3 kinds' % (c, L)))
+    js.append(Job('core_value/digit-limit', digit_limit, [lambda n, t: 4296 <= n <= 4305 and 0 <= t < len(SCALAR_KINDS)], budget=120,
+                  bounds='every core scalar constructor on a text of 4296..4305 decimal digits (digit count = solver variable)'))
     for t, k in enumerate(SCALAR_KINDS):
         js.append(Job('core_value/' + k, core_value, [lambda t, v, _t=t: t == _t and len(v) <= V],
                       budget=150 if tier == 'quick' else 900, bounds='tag !!%s, len(value)<=%d, all code points' % (k, V)))
